@@ -184,3 +184,37 @@ Example C02_hw_wide_nonvacuous :
   | Err _ => false
   end = true.
 Proof. vm_compute. reflexivity. Qed.
+
+(* Part 8: the same for the oracle the generator really uses -- Paths.sp_nx, the mirror of networkx's bidirectional
+   search, proved in NxProofs.v to return shortest paths (C14_networkx_mirror_returns_shortest_paths).  The tables
+   this theorem speaks about are the ones the model run with sp_nx emits, which the harness compares field by field
+   with floogen's on every explored description. *)
+From FV Require Import Paths NxProofs NxHw.
+Theorem C02_hw_delivered_nx :
+  forall (d : desc) (g : graph) (c : compiled) (ri : rinfo) (n : netlist) (t : cni) (id : Z) (nt : net),
+    net_ok d nt ->
+    build d = Ok g -> compile d g = Ok c -> gen_routing_info sp_nx c = Ok ri -> emit c ri = Ok n ->
+    d_algo d = ID -> In t (c_nis c) -> id_num (cn_id t) = Ok id ->
+    transitb sp_nx c t = true ->
+    names_sepb g nt = true -> single_attachb g c = true -> links_typedb g c = true -> degrees_fitb c = true ->
+    forall s0 p, In s0 (c_nis c) -> cn_name s0 <> cn_name t -> is_rtb c (snd (attach nt s0)) = true ->
+      sp_nx g (snd (attach nt s0)) (cn_name t) = Some p ->
+      let tr := send n nt (emit_ni d (ri_offset ri) s0) (HId id) in
+      t_out tr = Delivered (cn_name t) (HId id) /\ S (length (t_rts tr)) = length p.
+Proof.
+  intros d g c ri n t id nt Hnt Hb Hc Hri He Ha Ht Hid Htr H1 H2 H3 H4 s0 p Hs0 Hne Hrt Hsp.
+  destruct (hw_send_nx d g c ri n t id nt Hnt Hb Hc Hri He Ha Ht Hid Htr H1 H2 H3 H4 s0 p Hs0 Hne Hrt Hsp) as (A & B & _).
+  split; assumption.
+Qed.
+Print Assumptions C02_hw_delivered_nx.
+
+Theorem C02_model_tables_deliver_nx :
+  forall (d : desc) (g : graph) (c : compiled) (ri : rinfo) (t : cni) (id : Z),
+    build d = Ok g -> compile d g = Ok c ->
+    d_algo (c_desc c) = ID -> gen_routing_info sp_nx c = Ok ri -> In t (c_nis c) -> id_num (cn_id t) = Ok id ->
+    transitb sp_nx c t = true ->
+    forall r p k, In r (c_rts c) -> sp_nx (c_graph c) (cr_name r) (cn_name t) = Some p -> length p = S k ->
+      let v := cwalk k c ri (cn_name t) id (cr_name r) in
+      length v = S k /\ last v (cr_name r) = cn_name t /\ NoDup v.
+Proof. exact id_tables_deliver_nx. Qed.
+Print Assumptions C02_model_tables_deliver_nx.
